@@ -21,6 +21,7 @@ import (
 	"cuelang.org/go/cue/format"
 	"cuelang.org/go/cue/load"
 	"cuelang.org/go/internal/core/adt"
+	"cuelang.org/go/internal/core/dep"
 	"cuelang.org/go/internal/core/runtime"
 	"cuelang.org/go/internal/value"
 	"cuelang.org/go/tools/trim"
@@ -152,6 +153,8 @@ type c20dumper struct {
 	// vertex's leaf conjuncts (one entry per such conjunct), wherever it comes from
 	// (pattern, comprehension, definition, embedding). Only filled when non-nil.
 	marks map[string][][]string
+	// deps: per path, the paths of the vertices its conjuncts refer to (internal/core/dep)
+	deps map[string][]string
 }
 
 func c20errClass(b *adt.Bottom) string {
@@ -308,6 +311,9 @@ func (d *c20dumper) vertex(v *adt.Vertex, path string) {
 		if ms := d.markedDisjunctions(v); len(ms) > 0 {
 			d.marks[key] = ms
 		}
+		if ds := d.dependencies(v); len(ds) > 0 {
+			d.deps[key] = ds
+		}
 	}
 	descend := false
 	switch b := dv.BaseValue.(type) {
@@ -433,8 +439,35 @@ func (d *c20dumper) markedDisjunctions(v *adt.Vertex) (out [][]string) {
 	return out
 }
 
+// dependencies lists the dump keys of the vertices that the conjuncts of v refer to.
+func (d *c20dumper) dependencies(v *adt.Vertex) (out []string) {
+	defer func() {
+		if r := recover(); r != nil {
+			out = nil
+		}
+	}()
+	seen := map[string]bool{}
+	dep.Visit(&dep.Config{}, d.ctx, v, func(dp dep.Dependency) error {
+		if dp.Node == nil {
+			return nil
+		}
+		k := ""
+		for _, f := range dp.Node.Path() {
+			k += "." + d.label(f)
+		}
+		if k != "" && !seen[k] {
+			seen[k] = true
+			out = append(out, k)
+		}
+		return nil
+	})
+	sort.Strings(out)
+	return out
+}
+
 type c20Eval struct {
 	marks  map[string][][]string // marked-disjunction conjuncts per path (original value)
+	deps   map[string][]string   // referenced paths per path (original value)
 	dump   string                // property-level canonical form
 	schema string                // + optional fields and pattern constraints (statistics only)
 	nErr   int
@@ -452,10 +485,11 @@ func c20Evaluate(l *c20Loaded) (e c20Eval, err error) {
 	}()
 	r, v := value.ToInternal(l.val)
 	ctx := adt.NewContext(r, v)
-	d := &c20dumper{r: r, ctx: ctx, out: map[string]string{}, budget: 20000, stack: map[*adt.Vertex]bool{}, marks: map[string][][]string{}}
+	d := &c20dumper{r: r, ctx: ctx, out: map[string]string{}, budget: 20000, stack: map[*adt.Vertex]bool{}, marks: map[string][][]string{}, deps: map[string][]string{}}
 	d.vertex(v, "")
 	e.dump = c20join(d.out)
 	e.marks = d.marks
+	e.deps = d.deps
 	e.nErr, e.nInc, e.nPaths = d.nErr, d.nInc, len(d.out)
 	s := &c20dumper{r: r, ctx: ctx, out: map[string]string{}, budget: 20000, stack: map[*adt.Vertex]bool{}, schema: true}
 	s.vertex(v, "")
@@ -535,31 +569,75 @@ func c20SemanticClass(before c20Eval, afterDump string) string {
 	if len(diffs) == 0 {
 		return ""
 	}
+	// (1) paths that qualify on their own
+	ok := map[string]bool{}
+	var rest []c20PathDiff
 	for _, df := range diffs {
-		ms := before.marks[df.path]
-		if len(ms) < 2 || df.before == "" || !strings.HasPrefix(df.after, "|(") || df.after == df.before {
-			return ""
-		}
-		// defaults of how many different marked conjuncts are among the disjuncts left?
-		inner := strings.TrimSuffix(strings.TrimPrefix(df.after, "|("), ")")
-		have := map[string]bool{}
-		for _, x := range strings.Split(inner, ",") {
-			have[strings.TrimPrefix(x, "*")] = true
-		}
-		contributors := 0
-		for _, defs := range ms {
-			for _, dv := range defs {
-				if dv == "?" || have[dv] {
-					contributors++
-					break
-				}
-			}
-		}
-		if contributors < 2 {
-			return ""
+		if c20multiDefaultAt(before, df) {
+			ok[df.path] = true
+		} else {
+			rest = append(rest, df)
 		}
 	}
+	if len(ok) == 0 {
+		return ""
+	}
+	// (2) paths whose conjuncts REFER to a qualifying path (or into / above it) and that
+	// became unresolved in the same way (ambiguous disjunction or incomplete): the change
+	// propagated through a reference; to a fixpoint
+	related := func(a, b string) bool {
+		return a == b || strings.HasPrefix(a, b+".") || strings.HasPrefix(b, a+".")
+	}
+	for changed := true; changed && len(rest) > 0; {
+		changed = false
+		var next []c20PathDiff
+		for _, df := range rest {
+			hit := false
+			if df.before != "" && df.after != df.before && (strings.HasPrefix(df.after, "|(") || df.after == "err:incomplete") {
+				for _, dp := range before.deps[df.path] {
+					for q := range ok {
+						if related(dp, q) {
+							hit = true
+						}
+					}
+				}
+			}
+			if hit {
+				ok[df.path] = true
+				changed = true
+			} else {
+				next = append(next, df)
+			}
+		}
+		rest = next
+	}
+	if len(rest) > 0 {
+		return ""
+	}
 	return "multi-default-vertex"
+}
+
+func c20multiDefaultAt(before c20Eval, df c20PathDiff) bool {
+	ms := before.marks[df.path]
+	if len(ms) < 2 || df.before == "" || !strings.HasPrefix(df.after, "|(") || df.after == df.before {
+		return false
+	}
+	// defaults of how many different marked conjuncts are among the disjuncts left?
+	inner := strings.TrimSuffix(strings.TrimPrefix(df.after, "|("), ")")
+	have := map[string]bool{}
+	for _, x := range strings.Split(inner, ",") {
+		have[strings.TrimPrefix(x, "*")] = true
+	}
+	contributors := 0
+	for _, defs := range ms {
+		for _, dv := range defs {
+			if dv == "?" || have[dv] {
+				contributors++
+				break
+			}
+		}
+	}
+	return contributors >= 2
 }
 
 // c20DiffDumps returns the first few differing lines of two canonical dumps.
